@@ -332,7 +332,7 @@ def wellformed(s, extra_seps=()):
     return And(*conds)
 
 
-def run_queries(prop, tier, workdir):
+def run_queries(prop, tier, workdir, only=None):
     t0 = time.time()
     res = {"engine": "S", "obligations": 0, "discharged": 0, "queries": 0, "solver_s": 0.0,
            "violations": [], "known": [], "inconclusive": [], "samples": [], "details": []}
@@ -368,6 +368,8 @@ def run_queries(prop, tier, workdir):
 
     def decide(name, build, n_max, replay):
         """build(solver) -> (formula whose satisfiability is a counterexample, witness extractor)"""
+        if only and name != only:
+            return
         res["obligations"] += 1
         S = Solver()
         tq = time.time()
@@ -418,6 +420,7 @@ def run_queries(prop, tier, workdir):
 
     if prop == "C16":
         N = 7 if tier == "quick" else 9
+        NI = 5 if tier == "quick" else 7   # the insertion obligation is ~10x more expensive per unit
 
         def idem(S):
             s0 = sym_string("c", N, base, S)
@@ -439,7 +442,7 @@ def run_queries(prop, tier, workdir):
         def insens(S):
             # s' = s with one extra blank or newline inserted at a symbolic position that is at
             # either end or next to a separator / existing white space
-            s0 = sym_string("c", N, base, S)
+            s0 = sym_string("c", NI, base, S)
             S.add(wellformed(s0))
             p = BitVec("p", W)
             S.add(ULE(p, s0.n))
@@ -448,20 +451,20 @@ def run_queries(prop, tier, workdir):
             # a newline may only be inserted where the next unit is not ':' (that is the
             # continuation marker, a different construct)
             chars = []
-            for i in range(N + 1):
+            for i in range(NI + 1):
                 e = BitVecVal(0, 8)
-                if i < N:
+                if i < NI:
                     e = s0.c[i]
                 prev = s0.c[i - 1] if i > 0 else BitVecVal(0, 8)
-                chars.append(If(ULT(bv(i), p), e if i < N else BitVecVal(0, 8), If(bv(i) == p, wsch, prev)))
+                chars.append(If(ULT(bv(i), p), e if i < NI else BitVecVal(0, 8), If(bv(i) == p, wsch, prev)))
             s1 = SStr(chars, s0.n + 1)
             seps_ws = SEPS + WS
             adj = [p == 0, p == s0.n]
-            for i in range(N):
+            for i in range(NI):
                 is_sw = Or(*[s0.c[i] == a for a in seps_ws])
                 adj.append(And(ULT(bv(i), s0.n), is_sw, Or(p == i, p == i + 1)))
             S.add(Or(*adj))
-            for i in range(N):
+            for i in range(NI):
                 S.add(Not(And(wsch == 0x0a, p == i, ULT(bv(i), s0.n), s0.c[i] == ord(":"))))
                 # a colon directly after a line break is the continuation marker; a blank between
                 # the line break and that colon turns it into an ordinary separator (documented:
@@ -477,7 +480,7 @@ def run_queries(prop, tier, workdir):
             if out is None:
                 return None, err[-200:]
             return (out[0] != out[1]), "normalize(s)=%r normalize(s')=%r" % (out[0], out[1])
-        decide("c16_normalize_layout_insensitive", insens, N, replay_insens)
+        decide("c16_normalize_layout_insensitive", insens, NI, replay_insens)
 
         def cont(S):
             # a continuation colon at the start of a line: "x\n:y" normalizes like "x\ny"
@@ -637,10 +640,11 @@ def main():
     ap.add_argument("--prop", required=True)
     ap.add_argument("--tier", default="quick")
     ap.add_argument("--out", required=True)
+    ap.add_argument("--only")
     a = ap.parse_args()
     workdir = tempfile.mkdtemp(prefix="engine-s.")
     try:
-        r = run_queries(a.prop, a.tier, workdir)
+        r = run_queries(a.prop, a.tier, workdir, a.only)
     finally:
         shutil.rmtree(workdir, ignore_errors=True)
     json.dump(r, open(a.out, "w"), indent=1, default=str)
